@@ -1,4 +1,8 @@
 """C03 - CDDA tracks tile the bin file exactly at the cue sheet's index positions."""
+import contextlib
+import hashlib
+import io
+import os
 import random
 import struct
 
@@ -9,7 +13,14 @@ import runner as R
 
 RULE = ("random cue sheets of 1-12 audio tracks with strictly increasing first-index MM:SS:FF (one or several INDEX lines, with/without TITLE; "
         "MM:SS:FF drawn so that every FF value 0..74 and minute/second carries occur) over bins of length classes {multiple of 2352, +1..3, +4k, +2351, cut inside last track}; "
-        "plus sheets of 70-99 tracks with 40-60 INDEX lines each (cue text well beyond 64 KiB); exported WAVs compared with slices of the bin and with the model windows. Non-trivial = >=2 tracks or a partial trailing sector; distinct = distinct (cue text, bin length)")
+        "plus sheets of 70-99 tracks with 40-60 INDEX lines each (cue text well beyond 64 KiB); exported WAVs compared with slices of the bin and with the model windows. "
+        "EVERY case is also exported by the extracted whole-image model: cdda_export_plan (routing, file names in order, channels, rate, byte range of the bin = the PCM; the bin enters by its length only, "
+        "theorem cdda_export_plan_exact) on every case, cdda_export itself (PCM bytes) on every case whose bin is at most 384 KiB, cdda_listing against the image's safe names. "
+        "A second stream of small sheets leaves the property's domain on purpose (model correspondence only): texts the parser rejects (no FILE line, FILE ... WAVE, a line between FILE and TRACK, TRACK without mode, "
+        "INDEX before any TRACK, empty), sheets with a data track (routed to the sampler readers), equal / decreasing / beyond-EOF starts, tracks without INDEX, TITLE \"\", titles the sanitiser rewrites or that collide "
+        "after rewriting, L/R titles, MM:SS:FF with SS >= 60 / FF >= 75, a second FILE block. Non-trivial = >=2 tracks or a partial trailing sector; distinct = distinct (cue text, bin length)")
+
+FULL_MODEL_MAX = 384 * 1024     # bins up to this size go through cdda_export itself (its transcoder model is quadratic in the block count: ~2 s at this size)
 
 
 def frames(i):
@@ -85,6 +96,101 @@ def gen_big(rng):
     return {"bin": "d.bin", "tracks": tracks}, total, fr
 
 
+def stamp_bin(total):
+    """bin content: every 4-byte frame distinct enough (position stamp)"""
+    return b"".join(struct.pack("<I", (k * 2654435761) & 0xFFFFFFFF) for k in range(total // 4 + 1))[:total]
+
+
+def _dg(b):
+    return "%d:%s" % (len(b), hashlib.sha1(b).hexdigest()[:16])
+
+
+def _name(comps):
+    return "/".join("".join(map(chr, c)) for c in comps) + ".wav"
+
+
+def observe_route(path, lines):
+    """what attempt_parse_cue_sheet makes of the text: 'not-a-cue' (BadCueSheet), 'cdda' (+ the tracks' safe names as `ls` shows them), 'sampler'"""
+    from smpl_extract import actions
+    from smpl_extract.cuesheet import BadCueSheet
+    try:
+        with contextlib.redirect_stdout(io.StringIO()):
+            img = actions.attempt_parse_cue_sheet([l + "\n" for l in lines], os.path.dirname(path))
+    except BadCueSheet:
+        return "not-a-cue", None
+    except Exception as e:      # the sampler readers (or anything else) gave up on the bin: not a CDDA image
+        return "sampler", type(e).__name__
+    if type(img).__name__ != "CompactDiskAudioImage":
+        R.close_image(img)
+        return "sampler", None
+    listing = None
+    try:
+        with contextlib.redirect_stdout(io.StringIO()):
+            img.set_routines({"make_safe_names": img.make_safe_names_routine, "make_export_names": img.make_export_names_routine})
+            listing = [[c.safe_name, c.type_name] for c in img.children]
+    except Exception as e:
+        listing = ["raised", type(e).__name__]
+    for t in img.tracks[:1]:
+        try:
+            t._data_stream.substream.close()
+        except Exception:
+            pass
+    return "cdda", listing
+
+
+def tie(ctx, case, lines, binb, path, r, tree, reported):
+    """the extracted whole-image model against the real CLI export of the same cue + bin"""
+    total = len(binb)
+    codes = [[ord(c) for c in l + "\n"] for l in lines]
+    full = total <= FULL_MODEL_MAX
+    calls = [("cdda_export_plan", [codes, total]), ("cdda_listing", [codes, total])]
+    if full:
+        calls.append(("cdda_export", [codes, binb]))
+    out = [M.res(v) for v in M.call_mixed(calls)]
+    plan, lst = out[0], out[1]
+    route_i, listing_i = observe_route(path, lines)
+    if plan[0] != "ok" and plan[:2] != ("err", "BadCueSheet"):
+        # the model's naming routines gave up (CouldNotDetermineName) or ran out of fuel: the real export must fail the same way
+        ctx.agree("cdda_export", case, ("err", r.exc_name), plan[:2])
+        return
+    route_m = ("cdda" if plan[1][0] == 1 else "sampler") if plan[0] == "ok" else "not-a-cue"
+    ctx.agree("cdda_export.route", case, route_i, route_m)
+    if route_m != "cdda" or route_i != "cdda":
+        if route_m in ("not-a-cue", "sampler") and full:
+            ctx.agree("cdda_export.route", dict(case, model="cdda_export"), ("err", "BadCueSheet"), out[2][:2])
+        return
+    if lst[0] == "ok":
+        ctx.agree("cdda_listing", case, listing_i, [["".join(map(chr, n)), "CDDA Track"] for n in lst[1][1]])
+    else:
+        ctx.agree("cdda_listing", case, listing_i, ["raised", lst[1] if len(lst) > 1 else "fuel"])
+    files = plan[1][1]
+    if r.exc is not None:
+        ctx.agree("cdda_export", case, ("err", r.exc_name), ("ok",))
+        return
+    mnames = [_name(f[0]) for f in files]
+    ctx.agree("cdda_export.paths", case, [list(reported), sorted(tree)], [mnames, sorted(mnames)])
+    mfull = None
+    if full:
+        ctx.agree("cdda_export", dict(case, model="cdda_export"), "ok", out[2][0])
+        if out[2][0] == "ok":
+            mfull = {_name(f[0]): (f[2], f[1], bytes(f[3])) for f in out[2][1]}
+            ctx.agree("cdda_export.paths", dict(case, model="cdda_export"), list(reported), [_name(f[0]) for f in out[2][1]])
+    for comps, rate, ch, off, ln in files:
+        nm = _name(comps)
+        if nm not in tree:
+            continue
+        w = R.parse_wav(tree[nm])
+        data = w.get("data", b"")
+        c2 = dict(case, file=nm)
+        ctx.agree("cdda_export.header", c2, (w["ok"], w.get("channels"), w.get("rate"), w.get("bits"), len(data)), (True, ch, rate, 16, ln))
+        lo = max(off, 0)
+        ctx.agree("cdda_export.pcm", c2, _dg(data), _dg(binb[lo:lo + max(ln, 0)]))
+        if mfull is not None and nm in mfull:
+            fch, frate, fpcm = mfull[nm]
+            ctx.agree("cdda_export.header", dict(c2, model="cdda_export"), (w.get("channels"), w.get("rate"), len(data)), (fch, frate, len(fpcm)))
+            ctx.agree("cdda_export.pcm", dict(c2, model="cdda_export"), _dg(data), _dg(fpcm))
+
+
 def w_cases(pid, tier, seed, job):
     ctx = F.Ctx(pid, tier, seed)
     big = isinstance(job, (list, tuple))
@@ -96,7 +202,7 @@ def w_cases(pid, tier, seed, job):
         if total > 12_000_000:
             continue
         # bin content: every 4-byte frame distinct enough (position stamp)
-        binb = b"".join(struct.pack("<I", (k * 2654435761) & 0xFFFFFFFF) for k in range(total // 4 + 1))[:total]
+        binb = stamp_bin(total)
         lines = CG.decorate(rng, sheet, rng.choice([None, "lower"]), rng.random() < 0.3, False, blanks=rng.randint(0, 2), junk=rng.randint(0, 2))
         text = "\n".join(lines) + "\n"
         case = {"cue": lines, "bin_len": total}
@@ -118,6 +224,7 @@ def w_cases(pid, tier, seed, job):
             else:
                 ctx.agree("cdda_windows", case, ("not-a-cue",), mres[:2])
             r, tree, reported = R.export(path)
+            tie(ctx, case, lines, binb, path, r, tree, reported)
         ctx.count("cdda_export", (tuple(lines), total), nontrivial=len(fr) > 1 or total % 2352 != 0)
         names = expected_names(sheet)
         if len(set(names)) < len(names):
@@ -166,8 +273,100 @@ def w_cases(pid, tier, seed, job):
     return ctx.dump()
 
 
+HOSTILE_TITLES = ["a/b", "..", "x.", " lead", "trail ", "It`s", "A:B", "Drums L", "Drums R", "Drums-L", "same", "same", "same (2)", "same.", "a\\b", "#1",
+                  "-x", ".", "", "x" * 70, "caf?", "a  b", "L", "R", "T (2) L", "Untitled Track 2", "Untitled Track 1"]
+
+
+def gen_odd(rng):
+    """small sheets that leave the property's domain (or sit on its edge): for the model correspondence only"""
+    n = rng.randint(1, 5)
+    fr = [rng.randint(0, 3)]
+    for _ in range(n - 1):
+        fr.append(fr[-1] + rng.randint(1, 6))
+    tracks = []
+    for k, f0 in enumerate(fr):
+        title = rng.choice([None, "T%d" % (k + 1), rng.choice(HOSTILE_TITLES), rng.choice(HOSTILE_TITLES)])
+        tracks.append({"number": k + 1, "mode": "AUDIO", "title": title, "indices": [(1, f0 // 4500, (f0 // 75) % 60, f0 % 75)]})
+    sheet = {"bin": "d.bin", "tracks": tracks}
+    total = (fr[-1] + rng.choice([0, 1, 2])) * 2352 + rng.choice([0, 1, 2, 3, 4, 7, 2351])
+    kind = rng.choice(["no-file", "file-not-binary", "junk-after-file", "track-no-mode", "index-before-track", "empty", "data-track", "data-track",
+                       "mode-case", "equal-starts", "decreasing", "beyond-eof", "no-index", "no-index", "titles", "titles", "titles", "wide-msf",
+                       "two-files", "title-twice", "all-same-title"])
+    t = rng.choice(tracks)
+    if kind == "data-track":
+        t["mode"] = rng.choice(["MODE1/2352", "MODE2/2336", "CDG", "AUDIO1", "AUDI"])
+    elif kind == "mode-case":
+        for x in tracks:
+            x["mode"] = rng.choice(["audio", "Audio", "aUDIO", "AUDIO"])
+    elif kind == "equal-starts" and n >= 2:
+        k = rng.randrange(1, n)
+        tracks[k]["indices"] = list(tracks[k - 1]["indices"])
+    elif kind == "decreasing" and n >= 2:
+        k = rng.randrange(1, n)
+        tracks[k]["indices"], tracks[k - 1]["indices"] = tracks[k - 1]["indices"], tracks[k]["indices"]
+    elif kind == "beyond-eof":
+        total = max(0, fr[rng.randrange(n)] * 2352 - rng.choice([1, 3, 2352, 5000]))
+    elif kind == "no-index":
+        for x in rng.sample(tracks, rng.randint(1, len(tracks))):
+            x["indices"] = []
+    elif kind == "titles":
+        for x in tracks:
+            x["title"] = rng.choice(HOSTILE_TITLES)
+    elif kind == "all-same-title":
+        ti = rng.choice(["same", "same (2)", "x L", "", "Untitled Track 2"])
+        for x in tracks:
+            x["title"] = ti
+    elif kind == "wide-msf":
+        k = rng.randrange(n)
+        f0 = fr[k]
+        if f0 >= 75:
+            tracks[k]["indices"] = [(1, 0, f0 // 75 - 1, 75 + f0 % 75)]
+        else:
+            tracks[k]["indices"] = [(0, 0, 0, f0), (1, 0, 0, f0 + 80)]
+    elif kind == "title-twice":
+        t["title"] = "first"
+    lines = CG.canonical(sheet)
+    if kind == "wide-msf":
+        lines = [l.replace("INDEX 01", "INDEX 1") for l in lines]
+    if kind == "no-file":
+        lines = lines[1:]
+    elif kind == "file-not-binary":
+        lines[0] = rng.choice(['FILE "d.bin" WAVE', 'FILE d.bin BINARY', 'FILE "d.bin"BINARY', 'FILE "d.bin" BINAR'])
+    elif kind == "junk-after-file":
+        lines.insert(1, rng.choice(["REM x", 'TITLE "album"', "INDEX 01 00:00:00", "CATALOG 1"]))
+    elif kind == "track-no-mode":
+        i = rng.choice([j for j, l in enumerate(lines) if l.startswith("TRACK")])
+        lines[i] = rng.choice(["TRACK 01", "TRACK AUDIO", "TRACK 01AUDIO", "TRACK 01 !"])
+    elif kind == "index-before-track":
+        lines = [lines[0], "INDEX 01 00:00:00"] + lines[1:]
+    elif kind == "empty":
+        lines = rng.choice([[], ["", "   "], ["REM nothing"]])
+    elif kind == "two-files":
+        lines = lines + ['FILE "other.bin" BINARY', "TRACK 09 " + rng.choice(["AUDIO", "MODE1/2352"]), "INDEX 01 00:00:00"]
+    elif kind == "title-twice":
+        i = lines.index('TITLE "first"')
+        lines.insert(rng.choice([i + 1, i + 2]), 'TITLE "second"')
+    return kind, lines, total
+
+
+def w_odd(pid, tier, seed, job):
+    ctx = F.Ctx(pid, tier, seed)
+    rng = random.Random(job)
+    for _ in range(10):
+        kind, lines, total = gen_odd(rng)
+        binb = stamp_bin(total)
+        case = {"cue": lines, "bin_len": total, "kind": kind}
+        text = "".join(l + "\n" for l in lines)
+        with R.TempImage(text.encode("ascii"), "d.cue", {"d.bin": binb}) as path:
+            r, tree, reported = R.export(path)
+            tie(ctx, case, lines, binb, path, r, tree, reported)
+        ctx.count("cdda_odd", (tuple(lines), total), nontrivial=True)
+    return ctx.dump()
+
+
 def run(ctx):
     F.pmap(ctx, w_cases, [ctx.seed * 6007 + i for i in range(16 if ctx.quick else 240)] + [("big", ctx.seed * 31 + i) for i in range(2 if ctx.quick else 10)])
+    F.pmap(ctx, w_odd, [ctx.seed * 7919 + 101 + i for i in range(16 if ctx.quick else 160)])
 
 
 def replay(ctx, case):
